@@ -376,7 +376,44 @@ def rule_compare_as_stored(ctx, R="C13/compare-as-stored"):
                   "a name comparison does not compare the to-be-stored name with a stored name: %s vs %s" % (show(a[0])[:70], show(a[1])[:70]))
 
 
+LIMITING = ("take", "take_while", "chain", "bytes", "skip", "lines", "split", "by_ref")
+
+
+def rule_whole_map_read(ctx, R="C13/whole-map-read"):
+    """`every line of the memory map`: the list is aggregated from ALL of /proc/<pid>/maps — the parser is handed the opened file
+    itself (or a buffered reader of it), not a length-limited or filtered view (the file is sorted by address: a cut loses the
+    libraries and every stack), and aggregate() receives exactly what the parser returned."""
+    b = ctx.body(R, "linux::ptrace_dumper::PtraceDumper::enumerate_mappings")
+    if b is None:
+        return
+    o = Origin(b)
+    rd = [(bi, t) for bi, t in b.calls(lambda c: (c.short or "").split("::")[-1] in ("from_read", "from_buf_read", "from_file") and "MemoryMaps" in (c.inst or ""))]
+    ctx.floor(R, "MemoryMaps parse in enumerate_mappings", len(rd), 1)
+    for bi, t in rd:
+        a = strip(o.call_args(bi)[0])
+        names = []
+        cur = a
+        while cur[0] == "call" and cur[2]:
+            names.append(cur[1].split("::")[-1])
+            cur = strip(cur[2][0])
+        src_ok = any(q[0] == "str" and "/maps" in q[1] for q in walk(a)) and any(q[0] == "field" and q[2] == "pid" for q in walk(a))
+        bad = [n for n in names if n in LIMITING]
+        okn = all(n in ("map_err", "open", "new", "from", "into", "must_use", "format", "with_capacity") or n.startswith("new") for n in names)
+        inst = (t["callee"].get("inst") or "")
+        ctx.check(src_ok and not bad and okn and ("::<std::fs::File>" in inst or "BufReader<std::fs::File>" in inst or "from_file" in inst), R, "whole-file", b.where(bi),
+                  "the parser reads /proc/<pid>/maps itself, whole", "the memory map is parsed from %s: %s" % (show(a)[:100], ("a limited view (%s)" % ", ".join(bad)) if bad else "not the opened maps file"))
+    ag = [(bi, o.call_args(bi)) for bi, t in b.calls(lambda c: c.endswith("MappingInfo::aggregate"))]
+    ctx.floor(R, "aggregate call in enumerate_mappings", len(ag), 1)
+    for bi, a in ag:
+        x = strip(a[0])
+        while x[0] == "call" and x[1].split("::")[-1] in ("map_err",) and x[2]:
+            x = strip(x[2][0])
+        ctx.check(x[0] == "call" and x[1].split("::")[-1] in ("from_read", "from_buf_read", "from_file"), R, "aggregates-what-was-parsed", b.where(bi),
+                  "aggregate() receives the parsed map as it is", "aggregate() receives %s" % show(x)[:100])
+
+
 def run(ctx):
+    rule_whole_map_read(ctx)
     rule_compare_as_stored(ctx)
     rule_name_conversion(ctx)
     from rules import c18
@@ -387,3 +424,7 @@ def run(ctx):
     rule_one_outcome(ctx)
     rule_gate_name(ctx)
     rule_deleted_suffix(ctx)
+    # the vDSO address likewise (same rule instance as C18/auxv)
+    from rules import c18 as _c18a
+    _c18a.rule_auxv(ctx, R="C13/auxv")
+
